@@ -1,8 +1,1292 @@
-//! placeholder: this component is not built yet
+//! C07 / C08 — correspondence of `trion::asm::simplify::{simplify, evaluate}` with the Lean model
+//! `Trion.Simp`, and the property oracles evaluated directly on the implementation.
+//!
+//! Tree text form (shared with `Driver/Simp.lean`): prefix notation, one blank-separated token per node:
+//! `c<int>` `i<hex>` `s<hex>` `+ - * / % & | ^ < >` `n` `!` `@` `q<k>` `f<k>:<hex>`.
+//!
+//! Replay inputs:
+//!   `S <tree>`                          simplify (+ C07 oracle when the tree is closed)
+//!   `E <binding>* T <tree>`             evaluate / the C08 two-order oracle; bindings `k:<hex>=<v>` known now,
+//!                                       `l:<hex>=<v>` declared now and valued later, `r:<hex>` register
+//!   `A <binding>* T <tree>`             end-to-end: `.du32` of the expression, `.const` before vs after
+use std::collections::BTreeMap;
+use std::path::PathBuf;
+use std::sync::Arc;
+
+use trion::arm6m::Arm6M;
+use trion::asm::arcob::Arcob;
+use trion::asm::constant::Realm;
+use trion::asm::directive::DirectiveList;
+use trion::asm::instr::InstructionSet;
+use trion::asm::simplify::{evaluate, simplify, EvalError, Evaluation, OverflowError, SimplifyError};
+use trion::asm::Context;
+use trion::text::parse::{Argument, ArgumentType};
+use trion::text::token::Number;
+
 use crate::common::*;
+
+// ---------------------------------------------------------------------------------------------------------
+// trees
+
+#[derive(Clone, Debug, PartialEq, Eq)]
+enum T
+{
+	C(i64),
+	I(String),
+	S(String),
+	Bin(u8, Box<T>, Box<T>),
+	Neg(Box<T>),
+	Not(Box<T>),
+	Addr(Box<T>),
+	Seq(Vec<T>),
+	Func(String, Vec<T>),
+}
+
+const OPS: [&str; 10] = ["+", "-", "*", "/", "%", "&", "|", "^", "<", ">"];
+const OP_NAMES: [&str; 10] = ["add", "sub", "mul", "div", "mod", "and", "or", "xor", "shl", "shr"];
+const ADD: u8 = 0;
+const SUB: u8 = 1;
+const MUL: u8 = 2;
+const DIV: u8 = 3;
+const MOD: u8 = 4;
+const AND: u8 = 5;
+const OR: u8 = 6;
+const XOR: u8 = 7;
+const SHL: u8 = 8;
+const SHR: u8 = 9;
+
+fn bin(op: u8, l: T, r: T) -> T {T::Bin(op, Box::new(l), Box::new(r))}
+fn id(s: &str) -> T {T::I(s.to_owned())}
+
+impl T
+{
+	fn tokens_into(&self, out: &mut Vec<String>)
+	{
+		match self
+		{
+			T::C(v) => out.push(format!("c{v}")),
+			T::I(s) => out.push(format!("i{}", hex(s.as_bytes()))),
+			T::S(s) => out.push(format!("s{}", hex(s.as_bytes()))),
+			T::Bin(op, l, r) =>
+			{
+				out.push(OPS[*op as usize].to_owned());
+				l.tokens_into(out);
+				r.tokens_into(out);
+			},
+			T::Neg(a) => {out.push("n".to_owned()); a.tokens_into(out);},
+			T::Not(a) => {out.push("!".to_owned()); a.tokens_into(out);},
+			T::Addr(a) => {out.push("@".to_owned()); a.tokens_into(out);},
+			T::Seq(v) =>
+			{
+				out.push(format!("q{}", v.len()));
+				for a in v {a.tokens_into(out);}
+			},
+			T::Func(n, v) =>
+			{
+				out.push(format!("f{}:{}", v.len(), hex(n.as_bytes())));
+				for a in v {a.tokens_into(out);}
+			},
+		}
+	}
+
+	fn text(&self) -> String
+	{
+		let mut v = Vec::new();
+		self.tokens_into(&mut v);
+		v.join(" ")
+	}
+
+	fn parse(toks: &mut std::slice::Iter<&str>) -> Option<T>
+	{
+		let t = *toks.next()?;
+		if let Some(op) = OPS.iter().position(|o| *o == t)
+		{
+			let l = T::parse(toks)?;
+			let r = T::parse(toks)?;
+			return Some(bin(op as u8, l, r));
+		}
+		match t
+		{
+			"n" => return Some(T::Neg(Box::new(T::parse(toks)?))),
+			"!" => return Some(T::Not(Box::new(T::parse(toks)?))),
+			"@" => return Some(T::Addr(Box::new(T::parse(toks)?))),
+			_ => (),
+		}
+		let (head, body) = t.split_at(1);
+		let name = |h: &str| unhex(h).and_then(|b| String::from_utf8(b).ok());
+		match head
+		{
+			"c" => body.parse::<i64>().ok().map(T::C),
+			"i" => name(body).map(T::I),
+			"s" => name(body).map(T::S),
+			"q" =>
+			{
+				let k: usize = body.parse().ok()?;
+				let mut v = Vec::new();
+				for _ in 0..k {v.push(T::parse(toks)?);}
+				Some(T::Seq(v))
+			},
+			"f" =>
+			{
+				let (k, n) = body.split_once(':')?;
+				let k: usize = k.parse().ok()?;
+				let n = name(n)?;
+				let mut v = Vec::new();
+				for _ in 0..k {v.push(T::parse(toks)?);}
+				Some(T::Func(n, v))
+			},
+			_ => None,
+		}
+	}
+
+	fn parse_text(s: &str) -> Option<T>
+	{
+		let toks: Vec<&str> = s.split(' ').filter(|w| !w.is_empty()).collect();
+		let mut it = toks.iter();
+		let t = T::parse(&mut it)?;
+		if it.next().is_some() {None} else {Some(t)}
+	}
+
+	fn to_arg(&self) -> Argument<'static>
+	{
+		let arc = |s: &str| -> Arcob<'static, str> {Arcob::Arced(Arc::from(s))};
+		let b = |t: &T| Box::new(t.to_arg());
+		match self
+		{
+			T::C(v) => Argument::Constant(Number::Integer(*v)),
+			T::I(s) => Argument::Identifier(arc(s)),
+			T::S(s) => Argument::String(arc(s)),
+			T::Bin(op, l, r) =>
+			{
+				let (lhs, rhs) = (b(l), b(r));
+				match *op
+				{
+					ADD => Argument::Add{lhs, rhs},
+					SUB => Argument::Subtract{lhs, rhs},
+					MUL => Argument::Multiply{lhs, rhs},
+					DIV => Argument::Divide{lhs, rhs},
+					MOD => Argument::Modulo{lhs, rhs},
+					AND => Argument::BitAnd{lhs, rhs},
+					OR => Argument::BitOr{lhs, rhs},
+					XOR => Argument::BitXor{lhs, rhs},
+					SHL => Argument::LeftShift{lhs, rhs},
+					_ => Argument::RightShift{lhs, rhs},
+				}
+			},
+			T::Neg(a) => Argument::Negate(b(a)),
+			T::Not(a) => Argument::Not(b(a)),
+			T::Addr(a) => Argument::Address(b(a)),
+			T::Seq(v) => Argument::Sequence(v.iter().map(T::to_arg).collect()),
+			T::Func(n, v) => Argument::Function{name: arc(n), args: v.iter().map(T::to_arg).collect()},
+		}
+	}
+
+	fn from_arg(a: &Argument) -> T
+	{
+		let f = |x: &Argument| Box::new(T::from_arg(x));
+		match a
+		{
+			Argument::Constant(Number::Integer(v)) => T::C(*v),
+			Argument::Identifier(s) => T::I(s.as_ref().to_owned()),
+			Argument::String(s) => T::S(s.as_ref().to_owned()),
+			Argument::Add{lhs, rhs} => T::Bin(ADD, f(lhs), f(rhs)),
+			Argument::Subtract{lhs, rhs} => T::Bin(SUB, f(lhs), f(rhs)),
+			Argument::Multiply{lhs, rhs} => T::Bin(MUL, f(lhs), f(rhs)),
+			Argument::Divide{lhs, rhs} => T::Bin(DIV, f(lhs), f(rhs)),
+			Argument::Modulo{lhs, rhs} => T::Bin(MOD, f(lhs), f(rhs)),
+			Argument::BitAnd{lhs, rhs} => T::Bin(AND, f(lhs), f(rhs)),
+			Argument::BitOr{lhs, rhs} => T::Bin(OR, f(lhs), f(rhs)),
+			Argument::BitXor{lhs, rhs} => T::Bin(XOR, f(lhs), f(rhs)),
+			Argument::LeftShift{lhs, rhs} => T::Bin(SHL, f(lhs), f(rhs)),
+			Argument::RightShift{lhs, rhs} => T::Bin(SHR, f(lhs), f(rhs)),
+			Argument::Negate(v) => T::Neg(f(v)),
+			Argument::Not(v) => T::Not(f(v)),
+			Argument::Address(v) => T::Addr(f(v)),
+			Argument::Sequence(v) => T::Seq(v.iter().map(T::from_arg).collect()),
+			Argument::Function{name, args} => T::Func(name.as_ref().to_owned(), args.iter().map(T::from_arg).collect()),
+		}
+	}
+
+	fn walk(&self, f: &mut dyn FnMut(&T))
+	{
+		f(self);
+		match self
+		{
+			T::Bin(_, l, r) => {l.walk(f); r.walk(f);},
+			T::Neg(a) | T::Not(a) | T::Addr(a) => a.walk(f),
+			T::Seq(v) | T::Func(_, v) => for a in v {a.walk(f);},
+			_ => (),
+		}
+	}
+
+	fn consts(&self) -> usize
+	{
+		let mut n = 0;
+		self.walk(&mut |t| if matches!(t, T::C(_)) {n += 1;});
+		n
+	}
+
+	fn idents(&self) -> Vec<String>
+	{
+		let mut v: Vec<String> = Vec::new();
+		self.walk(&mut |t| if let T::I(s) = t {if !v.contains(s) {v.push(s.clone());}});
+		v
+	}
+
+	fn arithmetic(&self) -> bool
+	{
+		let mut ok = true;
+		self.walk(&mut |t| if matches!(t, T::S(_) | T::Addr(_) | T::Seq(_) | T::Func(..)) {ok = false;});
+		ok
+	}
+
+	fn subst(&self, env: &BTreeMap<String, i64>) -> T
+	{
+		let b = |t: &T| Box::new(t.subst(env));
+		match self
+		{
+			T::I(s) => match env.get(s) {Some(v) => T::C(*v), None => self.clone()},
+			T::Bin(op, l, r) => T::Bin(*op, b(l), b(r)),
+			T::Neg(a) => T::Neg(b(a)),
+			T::Not(a) => T::Not(b(a)),
+			T::Addr(a) => T::Addr(b(a)),
+			T::Seq(v) => T::Seq(v.iter().map(|t| t.subst(env)).collect()),
+			T::Func(n, v) => T::Func(n.clone(), v.iter().map(|t| t.subst(env)).collect()),
+			_ => self.clone(),
+		}
+	}
+
+	/// source text, fully parenthesised; negative literals are written through unary minus
+	fn source(&self) -> String
+	{
+		match self
+		{
+			T::C(v) =>
+			{
+				if *v >= 0 {format!("{v}")}
+				else if *v == i64::MIN {"(-9223372036854775807 - 1)".to_owned()}
+				else {format!("(-{})", -*v)}
+			},
+			T::I(s) => s.clone(),
+			T::S(s) => format!("\"{s}\""),
+			T::Bin(op, l, r) =>
+			{
+				let o = match *op {SHL => "<<", SHR => ">>", o => OPS[o as usize]};
+				format!("({} {} {})", l.source(), o, r.source())
+			},
+			T::Neg(a) => format!("(-{})", a.source()),
+			T::Not(a) => format!("(!{})", a.source()),
+			T::Addr(a) => format!("[{}]", a.source()),
+			T::Seq(v) => format!("{{{}}}", v.iter().map(T::source).collect::<Vec<_>>().join(", ")),
+			T::Func(n, v) => format!("{n}({})", v.iter().map(T::source).collect::<Vec<_>>().join(", ")),
+		}
+	}
+}
+
+// ---------------------------------------------------------------------------------------------------------
+// the real code, canonicalised
+
+fn ty_name(t: ArgumentType) -> String {format!("{t:?}").to_lowercase()}
+
+fn ov_name(e: &OverflowError) -> &'static str
+{
+	match e
+	{
+		OverflowError::Add{..} => "add",
+		OverflowError::Negate => "negate",
+		OverflowError::Subtract{..} => "subtract",
+		OverflowError::Multiply{..} => "multiply",
+		OverflowError::DivideByZero(..) => "dividebyzero",
+		OverflowError::Divide{..} => "divide",
+		OverflowError::ModuloByZero(..) => "modulobyzero",
+		OverflowError::Modulo{..} => "modulo",
+		OverflowError::LeftShift{..} => "leftshift",
+		OverflowError::RightShift{..} => "rightshift",
+	}
+}
+
+/// outcome of one real call
+#[derive(Clone, Debug, PartialEq)]
+enum Out
+{
+	Ok{changed: bool, cause: Option<String>, tree: T},
+	Err(String),
+	Panic(String),
+}
+
+impl Out
+{
+	fn simp_text(&self) -> String
+	{
+		match self
+		{
+			Out::Ok{changed, tree, ..} => format!("ok {} {}", *changed as u8, tree.text()),
+			Out::Err(e) => format!("err {e}"),
+			Out::Panic(_) => "panic".to_owned(),
+		}
+	}
+	fn eval_text(&self) -> String
+	{
+		match self
+		{
+			Out::Ok{changed, cause, tree} => format!("ok {} {} {}", *changed as u8,
+				cause.as_ref().map(|c| hex(c.as_bytes())).unwrap_or_else(|| "none".to_owned()), tree.text()),
+			Out::Err(e) => format!("err {e}"),
+			Out::Panic(_) => "panic".to_owned(),
+		}
+	}
+	fn value(&self) -> Option<i64>
+	{
+		match self
+		{
+			Out::Ok{tree: T::C(v), cause: None, ..} => Some(*v),
+			_ => None,
+		}
+	}
+	fn tree(&self) -> Option<&T>
+	{
+		match self {Out::Ok{tree, ..} => Some(tree), _ => None}
+	}
+}
+
+fn real_simplify(t: &T) -> Out
+{
+	let mut a = t.to_arg();
+	match guarded(|| {let r = simplify(&mut a); (r, T::from_arg(&a))})
+	{
+		Ok((Ok(changed), tree)) => Out::Ok{changed, cause: None, tree},
+		Ok((Err(SimplifyError::BadType{kind, op}), _)) => Out::Err(format!("badtype {} {}", ty_name(kind), ty_name(op))),
+		Ok((Err(SimplifyError::Overflow(e)), _)) => Out::Err(format!("overflow {}", ov_name(&e))),
+		Err(p) => Out::Panic(p),
+	}
+}
+
+/// what the harness knows about an identifier
+#[derive(Clone, Debug, PartialEq)]
+enum Bind
+{
+	Known(i64),
+	Later(i64),
+	Reg,
+}
+
+type Binds = BTreeMap<String, Bind>;
+
+/// `evaluate` in the global realm of a fresh `Context` whose table holds `known` as values and `deferred` as declared
+fn real_evaluate(t: &T, known: &BTreeMap<String, i64>, deferred: &[String]) -> Out
+{
+	let directives = DirectiveList::generate();
+	let mut a = t.to_arg();
+	let r = guarded(||
+	{
+		let mut ctx = Context::new(&Arm6M, &directives);
+		for (n, v) in known {ctx.insert_constant(n, *v, Realm::Global).expect("insert_constant");}
+		for n in deferred {ctx.defer_constant(n, Realm::Global).expect("defer_constant");}
+		assert!(!ctx.has_curr_file());
+		let r = evaluate(&mut a, &ctx);
+		(r, T::from_arg(&a))
+	});
+	match r
+	{
+		Ok((Ok(Evaluation::Complete{changed}), tree)) => Out::Ok{changed, cause: None, tree},
+		Ok((Ok(Evaluation::Deferred{changed, cause}), tree)) => Out::Ok{changed, cause: Some(cause.as_ref().to_owned()), tree},
+		Ok((Err(EvalError::NoSuchVariable{name, ..}), tree)) => Out::Err(format!("nosuch {} {}", hex(name.as_ref().as_bytes()), tree.text())),
+		Ok((Err(EvalError::BadType{kind, op}), _)) => Out::Err(format!("badtype {} {}", ty_name(kind), ty_name(op))),
+		Ok((Err(EvalError::Overflow(e)), _)) => Out::Err(format!("overflow {}", ov_name(&e))),
+		Err(p) => Out::Panic(p),
+	}
+}
+
+fn is_reg(name: &str) -> bool {Arm6M.is_register(name)}
+
+// ---------------------------------------------------------------------------------------------------------
+// oracles
+
+/// C07: the value the property text demands, by `i128` arithmetic
+#[derive(Clone, Copy, Debug, PartialEq)]
+enum Spec
+{
+	Val(i64),
+	Error,
+	/// one of the corners the property leaves open (or not an expression over literals)
+	Open,
+}
+
+fn fit(v: i128) -> Spec {if v >= i64::MIN as i128 && v <= i64::MAX as i128 {Spec::Val(v as i64)} else {Spec::Error}}
+
+fn spec(t: &T) -> Spec
+{
+	match t
+	{
+		T::C(v) => Spec::Val(*v),
+		T::Bin(op, l, r) =>
+		{
+			// an open corner anywhere takes the whole tree out of the property's scope
+			let (sl, sr) = (spec(l), spec(r));
+			if sl == Spec::Open || sr == Spec::Open {return Spec::Open;}
+			let a = match sl {Spec::Val(a) => a as i128, o => return o};
+			let b = match sr {Spec::Val(b) => b as i128, o => return o};
+			match *op
+			{
+				ADD => fit(a + b),
+				SUB => fit(a - b),
+				MUL => fit(a * b),
+				DIV => if b == 0 {Spec::Error} else {fit(a / b)},
+				MOD =>
+				{
+					if b == 0 {Spec::Error}
+					else if a == i64::MIN as i128 && b == -1 {Spec::Open}
+					else {fit(a % b)}
+				},
+				AND => Spec::Val((a as i64) & (b as i64)),
+				OR => Spec::Val((a as i64) | (b as i64)),
+				XOR => Spec::Val((a as i64) ^ (b as i64)),
+				SHL =>
+				{
+					if b < 0 || b >= 64 {Spec::Error}
+					else if a < 0 {Spec::Open}
+					else
+					{
+						let r = a * (1i128 << b);
+						if r >= (1i128 << 63) {Spec::Open} else {Spec::Val(r as i64)}
+					}
+				},
+				_ =>
+				{
+					if b < 0 || b >= 64 {Spec::Error}
+					else if a < 0 {Spec::Open}
+					else {Spec::Val((a / (1i128 << b)) as i64)}
+				},
+			}
+		},
+		T::Neg(a) => match spec(a) {Spec::Val(a) => fit(-(a as i128)), o => o},
+		T::Not(a) => match spec(a) {Spec::Val(a) => Spec::Val(!a), o => o},
+		_ => Spec::Open,
+	}
+}
+
+/// C08: the value of a fully substituted expression by the machine rules (None = no value)
+fn refval(t: &T, env: &BTreeMap<String, i64>) -> Option<i64>
+{
+	match t
+	{
+		T::C(v) => Some(*v),
+		T::I(s) => env.get(s).copied(),
+		T::Bin(op, l, r) =>
+		{
+			let a = refval(l, env)?;
+			let b = refval(r, env)?;
+			match *op
+			{
+				ADD => a.checked_add(b),
+				SUB => a.checked_sub(b),
+				MUL => a.checked_mul(b),
+				DIV => if b == 0 {None} else {a.checked_div(b)},
+				MOD => if b == 0 {None} else {a.checked_rem(b)},
+				AND => Some(a & b),
+				OR => Some(a | b),
+				XOR => Some(a ^ b),
+				SHL => if (0..64).contains(&b) {Some(((a as i128) << b) as i64)} else {None},
+				_ => if (0..64).contains(&b) {Some(a >> b)} else {None},
+			}
+		},
+		T::Neg(a) => refval(a, env)?.checked_neg(),
+		T::Not(a) => Some(!refval(a, env)?),
+		_ => None,
+	}
+}
+
+// ---------------------------------------------------------------------------------------------------------
+// checks
+
+fn model_binding_tokens(binds: &Binds, later_known: bool) -> String
+{
+	let mut v = Vec::new();
+	for (n, b) in binds
+	{
+		let h = hex(n.as_bytes());
+		v.push(match b
+		{
+			Bind::Known(x) => format!("k:{h}={x}"),
+			Bind::Later(x) => if later_known {format!("k:{h}={x}")} else {format!("d:{h}")},
+			Bind::Reg => format!("r:{h}"),
+		});
+	}
+	v.join(" ")
+}
+
+fn replay_binding_tokens(binds: &Binds) -> String
+{
+	binds.iter().map(|(n, b)|
+	{
+		let h = hex(n.as_bytes());
+		match b
+		{
+			Bind::Known(x) => format!("k:{h}={x}"),
+			Bind::Later(x) => format!("l:{h}={x}"),
+			Bind::Reg => format!("r:{h}"),
+		}
+	}).collect::<Vec<_>>().join(" ")
+}
+
+fn parse_bindings(words: &[&str]) -> Option<Binds>
+{
+	let mut m = Binds::new();
+	for w in words
+	{
+		let (kind, rest) = w.split_once(':')?;
+		let name = |h: &str| unhex(h).and_then(|b| String::from_utf8(b).ok());
+		match kind
+		{
+			"k" | "l" =>
+			{
+				let (n, v) = rest.split_once('=')?;
+				let v: i64 = v.parse().ok()?;
+				m.insert(name(n)?, if kind == "k" {Bind::Known(v)} else {Bind::Later(v)});
+			},
+			"r" => {m.insert(name(rest)?, Bind::Reg);},
+			_ => return None,
+		}
+	}
+	Some(m)
+}
+
+fn env_now(binds: &Binds) -> (BTreeMap<String, i64>, Vec<String>)
+{
+	let mut known = BTreeMap::new();
+	let mut deferred = Vec::new();
+	for (n, b) in binds
+	{
+		match b
+		{
+			Bind::Known(v) => {known.insert(n.clone(), *v);},
+			Bind::Later(_) => deferred.push(n.clone()),
+			Bind::Reg => (),
+		}
+	}
+	(known, deferred)
+}
+
+fn env_all(binds: &Binds) -> BTreeMap<String, i64>
+{
+	binds.iter().filter_map(|(n, b)| match b {Bind::Known(v) | Bind::Later(v) => Some((n.clone(), *v)), Bind::Reg => None}).collect()
+}
+
+/// S-case: `simplify` correspondence, and for closed trees the C07 oracle on `simplify` and `evaluate`
+fn check_simplify(cx: &mut Cx, t: &T, replies: &[String])
+{
+	let input = format!("S {}", t.text());
+	let out = real_simplify(t);
+	let txt = out.simp_text();
+	cx.report.case(if matches!(out, Out::Ok{changed: true, ..}) {Some(&txt)} else {None});
+	cx.report.compare("model.simp.simplify", &input, &replies[0], &txt);
+	if let Out::Panic(p) = &out
+	{
+		cx.report.oracle_fail(input.clone(), format!("simplify panicked: {p}"));
+	}
+	match &out
+	{
+		Out::Ok{..} => cx.report.hit("simplify:ok"),
+		Out::Err(e) => cx.report.hit(&format!("simplify:err {}", e.split(' ').next().unwrap_or(""))),
+		Out::Panic(_) => cx.report.hit("simplify:panic"),
+	}
+	if t.arithmetic() && t.idents().is_empty()
+	{
+		// C07 oracle, on simplify and on evaluate with an empty table
+		let ev = real_evaluate(t, &BTreeMap::new(), &[]);
+		cx.report.compare("model.simp.evaluate", &input, &replies[1], &ev.eval_text());
+		let want = spec(t);
+		let want_txt = match want
+		{
+			Spec::Val(v) => format!("ok {v}"),
+			Spec::Error => "err".to_owned(),
+			Spec::Open => "open".to_owned(),
+		};
+		// the Lean specification agrees with the harness oracle
+		let lean_spec = &replies[2];
+		let lean_scope = &replies[3];
+		let lean_txt = if lean_scope == "0" {"open".to_owned()}
+			else if let Some(v) = lean_spec.strip_prefix("ok ") {format!("ok {v}")}
+			else {"err".to_owned()};
+		// a tree is out of scope for the harness as soon as the first corner is met; Lean's inScope looks at
+		// every node whose operands have values, so "open" must coincide
+		cx.report.compare("spec.arith.eval", &input, &lean_txt, &want_txt);
+		for (which, o) in [("simplify", &out), ("evaluate", &ev)]
+		{
+			match (want, o)
+			{
+				(Spec::Open, _) => cx.report.hit("c07:open-corner"),
+				(Spec::Val(v), Out::Ok{tree: T::C(w), cause: None, ..}) if *w == v => cx.report.hit("c07:value"),
+				(Spec::Error, Out::Err(e)) if e.starts_with("overflow") => cx.report.hit("c07:error"),
+				(w, o) => cx.report.oracle_fail(input.clone(), format!("{which}: checked 64-bit arithmetic demands {w:?}, implementation gives {}", o.eval_text())),
+			}
+		}
+	}
+}
+
+fn simplify_requests(t: &T) -> Vec<String>
+{
+	let txt = t.text();
+	let mut v = vec![format!("simp simplify {txt}")];
+	if t.arithmetic() && t.idents().is_empty()
+	{
+		v.push(format!("simp evaluate T {txt}"));
+		v.push(format!("simp spec {txt}"));
+		v.push(format!("simp inscope {txt}"));
+	}
+	v
+}
+
+/// E-case: evaluate correspondence and the two-order oracle of C08
+fn check_orders(cx: &mut Cx, t: &T, binds: &Binds)
+{
+	let input = format!("E {} T {}", replay_binding_tokens(binds), t.text());
+	let (known, deferred) = env_now(binds);
+	let all = env_all(binds);
+	let btok_now = model_binding_tokens(binds, false);
+	let btok_all = model_binding_tokens(binds, true);
+
+	// order 1: simplify first (nothing known), then evaluate with what is known now, then with everything
+	let s1 = real_simplify(t);
+	let m = cx.model.ask(&format!("simp simplify {}", t.text()));
+	cx.report.compare("model.simp.simplify", &input, &m, &s1.simp_text());
+	// order 2: evaluate now directly
+	let e_now = real_evaluate(t, &known, &deferred);
+	let m = cx.model.ask(&format!("simp evaluatet {btok_now} T {}", t.text()));
+	cx.report.compare("model.simp.evaluate", &input, &m, &e_now.eval_text());
+	// order 3: everything known from the start
+	let e_all = real_evaluate(t, &all, &[]);
+	let m = cx.model.ask(&format!("simp evaluatet {btok_all} T {}", t.text()));
+	cx.report.compare("model.simp.evaluate", &input, &m, &e_all.eval_text());
+	// substitute everything first, then simplify: the same tree as order 3
+	let sub = real_simplify(&t.subst(&all));
+
+	let mut finals: Vec<(&str, Out)> = Vec::new();
+	// simplify → evaluate(now) → evaluate(all)
+	if let Some(t1) = s1.tree()
+	{
+		let e1 = real_evaluate(t1, &known, &deferred);
+		let m = cx.model.ask(&format!("simp evaluatet {btok_now} T {}", t1.text()));
+		cx.report.compare("model.simp.evaluate", &format!("E {} T {}", replay_binding_tokens(binds), t1.text()), &m, &e1.eval_text());
+		match e1.tree()
+		{
+			Some(t2) =>
+			{
+				let e2 = real_evaluate(t2, &all, &[]);
+				let m = cx.model.ask(&format!("simp evaluatet {btok_all} T {}", t2.text()));
+				cx.report.compare("model.simp.evaluate", &format!("E {} T {}", replay_binding_tokens(binds), t2.text()), &m, &e2.eval_text());
+				finals.push(("simplify;evaluate(now);evaluate(all)", e2));
+			},
+			None => finals.push(("simplify;evaluate(now)", e1)),
+		}
+		// simplify → evaluate(all)
+		finals.push(("simplify;evaluate(all)", real_evaluate(t1, &all, &[])));
+	}
+	else {finals.push(("simplify", s1.clone()));}
+	// evaluate(now) → evaluate(all)
+	match e_now.tree()
+	{
+		Some(t1) => finals.push(("evaluate(now);evaluate(all)", real_evaluate(t1, &all, &[]))),
+		None => finals.push(("evaluate(now)", e_now.clone())),
+	}
+	// inside a file an unknown name is NoSuchVariable: the statement keeps the partly evaluated tree and retries later
+	{
+		let e_local = real_evaluate(t, &known, &[]);
+		let btok_local: String = binds.iter().filter_map(|(n, b)| match b
+		{
+			Bind::Known(x) => Some(format!("k:{}={x}", hex(n.as_bytes()))),
+			Bind::Reg => Some(format!("r:{}", hex(n.as_bytes()))),
+			Bind::Later(_) => None,
+		}).collect::<Vec<_>>().join(" ");
+		let m = cx.model.ask(&format!("simp evaluatet {btok_local} T {}", t.text()));
+		cx.report.compare("model.simp.evaluateT", &input, &m, &e_local.eval_text());
+		match &e_local
+		{
+			Out::Err(e) if e.starts_with("nosuch ") =>
+			{
+				cx.report.hit("retry:nosuch");
+				let tree_txt = e.splitn(3, ' ').nth(2).unwrap_or("");
+				match T::parse_text(tree_txt)
+				{
+					Some(tp) => finals.push(("evaluate(now, unknown names);retry evaluate(all)", real_evaluate(&tp, &all, &[]))),
+					None => cx.report.oracle_fail(input.clone(), format!("cannot re-read the tree left by NoSuchVariable: {tree_txt}")),
+				}
+			},
+			Out::Ok{tree, ..} => finals.push(("evaluate(now, unknown names);evaluate(all)", real_evaluate(tree, &all, &[]))),
+			_ => (),
+		}
+	}
+	finals.push(("evaluate(all)", e_all.clone()));
+	finals.push(("substitute;simplify", sub.clone()));
+
+	// never a panic
+	for (name, o) in finals.iter()
+	{
+		if let Out::Panic(p) = o {cx.report.oracle_fail(input.clone(), format!("{name} panicked: {p}"));}
+	}
+	// all orders that produce a value produce the same value, and it is the value of the expression
+	let truth = if t.arithmetic() {refval(t, &all)} else {None};
+	let mut values: Vec<(&str, i64)> = finals.iter().filter_map(|(n, o)| o.value().map(|v| (*n, v))).collect();
+	if let Some(v) = truth {values.push(("direct checked evaluation", v));}
+	if let Some((n0, v0)) = values.first().copied()
+	{
+		for (n, v) in values.iter().skip(1)
+		{
+			if *v != v0
+			{
+				cx.report.oracle_fail(input.clone(), format!("order \"{n0}\" gives {v0} but \"{n}\" gives {v}"));
+				break;
+			}
+		}
+	}
+	// with everything known the direct order must deliver the value whenever there is one (C07 on substituted trees)
+	if let Some(v) = truth
+	{
+		if e_all.value() != Some(v) || sub.value() != Some(v)
+		{
+			cx.report.oracle_fail(input.clone(), format!("the expression has the value {v}; evaluate gives {}, substitute;simplify gives {}", e_all.eval_text(), sub.simp_text()));
+		}
+	}
+	else if t.arithmetic() && binds.values().all(|b| *b != Bind::Reg) && t.idents().iter().all(|n| binds.contains_key(n))
+	{
+		// no value: the direct order must report an error, not a number
+		if let Some(w) = e_all.value()
+		{
+			cx.report.oracle_fail(input.clone(), format!("the expression overflows / divides by zero but evaluate gives {w}"));
+		}
+	}
+	// statistics
+	let n_val = finals.iter().filter(|(_, o)| o.value().is_some()).count();
+	cx.report.hit(if n_val == finals.len() {"orders:all-value"} else if n_val == 0 {"orders:no-value"} else {"orders:some-value"});
+	match &e_all
+	{
+		Out::Ok{tree: T::C(_), ..} => cx.report.hit("final:constant"),
+		Out::Ok{..} => cx.report.hit("final:symbolic"),
+		Out::Err(e) => cx.report.hit(&format!("final:err {}", e.split(' ').next().unwrap_or(""))),
+		Out::Panic(_) => cx.report.hit("final:panic"),
+	}
+	match &s1
+	{
+		Out::Ok{tree: T::C(_), ..} => cx.report.hit("simplified:constant"),
+		Out::Ok{changed: true, ..} => cx.report.hit("simplified:changed"),
+		Out::Ok{..} => cx.report.hit("simplified:unchanged"),
+		Out::Err(e) => cx.report.hit(&format!("simplified:err {}", e.split(' ').next().unwrap_or(""))),
+		Out::Panic(_) => cx.report.hit("simplified:panic"),
+	}
+	let key = e_now.eval_text();
+	cx.report.case(if matches!(e_now, Out::Ok{changed: true, ..}) {Some(&key)} else {None});
+}
+
+/// which rewrites fire: re-run the real simplifier bottom-up on every sub-tree (sampled cases only)
+fn rewrite_stats(cx: &mut Cx, t: &T) -> Option<T>
+{
+	let simp = |x: &T| match real_simplify(x) {Out::Ok{tree, ..} => Some(tree), _ => None};
+	match t
+	{
+		T::Bin(op, l, r) =>
+		{
+			cx.report.hit(&format!("op:{}", OP_NAMES[*op as usize]));
+			let l1 = rewrite_stats(cx, l)?;
+			let r1 = rewrite_stats(cx, r)?;
+			let node = bin(*op, l1.clone(), r1.clone());
+			let out = simp(&node)?;
+			let both_const = matches!((&l1, &r1), (T::C(_), T::C(_)));
+			if both_const {cx.report.hit("rw:fold");}
+			else if *op == MOD && out == l1 && node != out {cx.report.hit("rw:mod-collapse");}
+			else if l1.consts() >= 1 && r1.consts() >= 1 && out.consts() < l1.consts() + r1.consts()
+				&& !matches!(*op, MOD | SHL | SHR)
+			{
+				let direct_l = matches!(l1, T::C(_));
+				let direct_r = matches!(r1, T::C(_));
+				let shape = match (direct_l, direct_r) {(true, _) => "const-lhs", (_, true) => "const-rhs", _ => "deep-both"};
+				cx.report.hit(&format!("rw:merge {} {shape}", OP_NAMES[*op as usize]));
+			}
+			else if out != node {cx.report.hit("rw:neutral");}
+			Some(out)
+		},
+		T::Neg(a) =>
+		{
+			cx.report.hit("op:neg");
+			let a1 = rewrite_stats(cx, a)?;
+			let node = T::Neg(Box::new(a1.clone()));
+			let out = simp(&node)?;
+			if matches!(a1, T::Bin(SUB, ..)) {cx.report.hit("rw:neg-pushdown");}
+			Some(out)
+		},
+		T::Not(a) =>
+		{
+			cx.report.hit("op:not");
+			let a1 = rewrite_stats(cx, a)?;
+			simp(&T::Not(Box::new(a1)))
+		},
+		_ => simp(t),
+	}
+}
+
+/// A-case: the same `.du32` statements with the `.const` definitions above, below, and below a `.global` declaration
+fn check_e2e(cx: &mut Cx, t: &T, binds: &Binds)
+{
+	let input = format!("A {} T {}", replay_binding_tokens(binds), t.text());
+	let src = t.source();
+	let stmts = format!(".du32 ({src}) & 0xFFFFFFFF;\n.du32 (({src}) >> 32) & 0xFFFFFFFF;\n");
+	let mut defs_now = String::new();
+	let mut defs_later = String::new();
+	let mut globals = String::new();
+	for (n, b) in binds
+	{
+		match b
+		{
+			Bind::Known(v) => defs_now.push_str(&format!(".const {n}, {};\n", T::C(*v).source())),
+			Bind::Later(v) =>
+			{
+				defs_later.push_str(&format!(".const {n}, {};\n", T::C(*v).source()));
+				globals.push_str(&format!(".global {n};\n"));
+			},
+			Bind::Reg => (),
+		}
+	}
+	let programs = [
+		("definitions above", format!(".addr 0;\n{defs_now}{defs_later}{stmts}")),
+		("definitions below", format!(".addr 0;\n{defs_now}{stmts}{defs_later}")),
+		("all definitions below", format!(".addr 0;\n{stmts}{defs_now}{defs_later}")),
+		("declared global, defined below", format!("{globals}.addr 0;\n{defs_now}{stmts}{defs_later}")),
+	];
+	let mut results: Vec<(&str, Result<Vec<u8>, String>)> = Vec::new();
+	for (name, text) in programs.iter()
+	{
+		let r = guarded(|| assemble(text));
+		match r
+		{
+			Ok(r) => results.push((name, r)),
+			Err(p) =>
+			{
+				cx.report.oracle_fail(input.clone(), format!("assembling with {name} panicked: {p}"));
+				results.push((name, Err("panic".to_owned())));
+			},
+		}
+	}
+	let oks: Vec<(&str, &Vec<u8>)> = results.iter().filter_map(|(n, r)| r.as_ref().ok().map(|b| (*n, b))).collect();
+	if let Some((n0, b0)) = oks.first()
+	{
+		for (n, b) in oks.iter().skip(1)
+		{
+			if b != b0
+			{
+				cx.report.oracle_fail(input.clone(), format!("{n0}: {} but {n}: {}", hex(b0), hex(b)));
+				break;
+			}
+		}
+		// and the bytes are the value of the expression
+		if let Some(v) = refval(t, &env_all(binds))
+		{
+			let want = (v as u64).to_le_bytes().to_vec();
+			if **b0 != want
+			{
+				cx.report.oracle_fail(input.clone(), format!("the expression has the value {v} but {n0} emits {}", hex(b0)));
+			}
+		}
+	}
+	cx.report.hit(&format!("e2e:{} of {} orders assemble", oks.len(), results.len()));
+	let key = format!("{:?}", results.iter().map(|(_, r)| r.clone().ok()).collect::<Vec<_>>());
+	cx.report.case(if oks.is_empty() {None} else {Some(&key)});
+}
+
+fn assemble(text: &str) -> Result<Vec<u8>, String>
+{
+	let directives = DirectiveList::generate();
+	let mut ctx = Context::new(&Arm6M, &directives);
+	drop(ctx.assemble(text.as_bytes(), PathBuf::from("t.asm")));
+	if let Err(e) = ctx.close_segment() {return Err(format!("close: {e}"));}
+	if !ctx.finalize()
+	{
+		return Err(ctx.get_errors().iter().map(|e| format!("{e}")).collect::<Vec<_>>().join("; "));
+	}
+	let mut out = Vec::new();
+	for (_, data) in ctx.output().iter() {out.extend_from_slice(data);}
+	Ok(out)
+}
+
+// ---------------------------------------------------------------------------------------------------------
+// generators
+
+/// the 40 boundary operands of C07
+fn boundary() -> Vec<i64>
+{
+	let v: Vec<i64> = vec![
+		0, 1, -1, 2, -2, 3, 5, 7, -7, 10,
+		62, 63, 64, 65, -63, -64, 127, 128, -128, 255,
+		1 << 31, -(1 << 31), (1 << 32) - 1, 1 << 32, (1 << 32) + 1, -(1 << 32),
+		3037000499, 3037000500, -3037000500,
+		1 << 61, (1 << 62) - 1, 1 << 62, (1 << 62) + 1, -(1 << 62), -(1 << 62) - 1,
+		i64::MAX, i64::MAX - 1, i64::MIN, i64::MIN + 1,
+		0x5555_5555_5555_5555,
+	];
+	assert_eq!(v.len(), 40);
+	v
+}
+
+fn literal(rng: &mut Rng) -> i64
+{
+	match rng.below(20)
+	{
+		0 => 0,
+		1 => if rng.chance(1, 2) {1} else {-1},
+		2 | 3 | 4 =>
+		{
+			let k = rng.below(63);
+			let p = 1i64 << k;
+			let d = rng.range(-1, 1);
+			let v = p + d;
+			if rng.chance(1, 3) {-v} else {v}
+		},
+		5 => *rng.pick(&[i64::MAX, i64::MIN, i64::MAX - 1, i64::MIN + 1]),
+		6 | 7 => rng.range(0, 66),
+		_ => rng.range(-9, 9),
+	}
+}
+
+/// closed tree over literals
+fn gen_closed(rng: &mut Rng, depth: u32) -> T
+{
+	if depth == 0 || rng.chance(1, 5) {return T::C(literal(rng));}
+	match rng.below(14)
+	{
+		0 => T::Neg(Box::new(gen_closed(rng, depth - 1))),
+		1 => T::Not(Box::new(gen_closed(rng, depth - 1))),
+		2 | 3 =>
+		{
+			// shift by a literal count
+			let op = if rng.chance(1, 2) {SHL} else {SHR};
+			let operand = if rng.chance(1, 2) {T::C(rng.range(0, 1 << 20))} else {gen_closed(rng, depth - 1)};
+			bin(op, operand, T::C(if rng.chance(1, 8) {literal(rng)} else {rng.range(0, 40)}))
+		},
+		_ =>
+		{
+			let op = rng.below(10) as u8;
+			bin(op, gen_closed(rng, depth - 1), gen_closed(rng, depth - 1))
+		},
+	}
+}
+
+const NAMES: [&str; 8] = ["x", "y", "z", "w", "alpha", "beta", "k9", "_t"];
+const REGS: [&str; 4] = ["r0", "SP", "pc", "R12"];
+
+struct Gen<'a>
+{
+	rng: &'a mut Rng,
+	/// allow strings / addresses / sequences / functions
+	exotic: bool,
+	regs: bool,
+}
+
+impl<'a> Gen<'a>
+{
+	fn small(&mut self) -> i64
+	{
+		match self.rng.below(12)
+		{
+			0 => 0,
+			1 => 1,
+			2 => -1,
+			3 => literal(self.rng),
+			4 => 1 << self.rng.below(12),
+			_ => self.rng.range(-12, 12),
+		}
+	}
+
+	fn leaf(&mut self) -> T
+	{
+		match self.rng.below(20)
+		{
+			0..=10 => id(*self.rng.pick(&NAMES)),
+			11 if self.regs => id(*self.rng.pick(&REGS)),
+			12 if self.exotic => match self.rng.below(4)
+			{
+				0 => T::S("str".to_owned()),
+				1 => T::Addr(Box::new(self.expr(1))),
+				2 => T::Seq(vec![self.expr(1), self.expr(1)]),
+				_ => T::Func("fn".to_owned(), vec![self.expr(1)]),
+			},
+			_ => T::C(self.small()),
+		}
+	}
+
+	fn nonzero(&mut self) -> i64
+	{
+		loop
+		{
+			let v = self.small();
+			if v != 0 {return v;}
+		}
+	}
+
+	/// a chain of one operator family with constants sprinkled on both sides
+	fn chain(&mut self, fam: u8, n: u32, depth: u32) -> T
+	{
+		if n <= 1
+		{
+			return match self.rng.below(10)
+			{
+				0..=3 => T::C(self.small()),
+				4..=7 => id(*self.rng.pick(&NAMES)),
+				_ => if depth > 0 {self.expr(depth - 1)} else {self.leaf()},
+			};
+		}
+		let nl = 1 + self.rng.below(n as u64 - 1) as u32;
+		let l = self.chain(fam, nl, depth);
+		let r = self.chain(fam, n - nl, depth);
+		match fam
+		{
+			0 =>
+			{
+				let t = bin(if self.rng.chance(1, 2) {ADD} else {SUB}, l, r);
+				if self.rng.chance(1, 6) {T::Neg(Box::new(t))} else {t}
+			},
+			1 => bin(MUL, l, r),
+			2 => bin(AND, l, r),
+			3 => bin(OR, l, r),
+			_ => bin(XOR, l, r),
+		}
+	}
+
+	fn expr(&mut self, depth: u32) -> T
+	{
+		if depth == 0 {return self.leaf();}
+		match self.rng.below(24)
+		{
+			0..=6 =>
+			{
+				let fam = self.rng.below(5) as u8;
+				let n = 2 + self.rng.below(5) as u32;
+				self.chain(fam, n, depth - 1)
+			},
+			7 =>
+			{
+				// (x / a) / b, (a / x) / b, a / (x / b), deeper spines
+				let x = self.expr(depth - 1);
+				let (a, b) = (T::C(self.nonzero()), T::C(self.nonzero()));
+				match self.rng.below(5)
+				{
+					0 => bin(DIV, bin(DIV, x, a), b),
+					1 => bin(DIV, bin(DIV, a, x), b),
+					2 => bin(DIV, a, bin(DIV, x, b)),
+					3 => bin(DIV, bin(DIV, bin(DIV, x, a), self.leaf()), b),
+					_ => bin(DIV, bin(DIV, bin(DIV, a, x), self.leaf()), b),
+				}
+			},
+			8 =>
+			{
+				// modulo chains, negative and unit divisors included
+				let x = self.expr(depth - 1);
+				let a = T::C(*self.rng.pick(&[1, -1, 2, -2, 3, -3, 5, -5, 7, 10, -10, 0, i64::MIN, i64::MAX]));
+				let b = T::C(*self.rng.pick(&[1, -1, 2, -2, 3, -3, 5, -5, 7, 10, -10, 0, i64::MIN, i64::MAX]));
+				match self.rng.below(3)
+				{
+					0 => bin(MOD, bin(MOD, x, a), b),
+					1 => bin(MOD, bin(MOD, bin(MOD, x, a), b), T::C(self.nonzero())),
+					_ => bin(MOD, x, a),
+				}
+			},
+			9 | 10 =>
+			{
+				let op = if self.rng.chance(1, 2) {SHL} else {SHR};
+				let count = if self.rng.chance(1, 5) {self.expr(depth - 1)} else {T::C(self.rng.range(0, 8))};
+				bin(op, self.expr(depth - 1), count)
+			},
+			11 => T::Neg(Box::new(self.expr(depth - 1))),
+			12 => T::Not(Box::new(self.expr(depth - 1))),
+			13 =>
+			{
+				// neutral elements on either side
+				let op = self.rng.below(10) as u8;
+				let c = T::C(*self.rng.pick(&[0, 1, -1]));
+				if self.rng.chance(1, 2) {bin(op, c, self.expr(depth - 1))} else {bin(op, self.expr(depth - 1), c)}
+			},
+			14 => self.leaf(),
+			_ =>
+			{
+				let op = self.rng.below(10) as u8;
+				bin(op, self.expr(depth - 1), self.expr(depth - 1))
+			},
+		}
+	}
+}
+
+fn gen_binds(rng: &mut Rng, t: &T) -> Binds
+{
+	let mut m = Binds::new();
+	let big = rng.chance(1, 10);
+	for n in t.idents()
+	{
+		if is_reg(&n) {m.insert(n, Bind::Reg); continue;}
+		let v = if big {literal(rng)} else if rng.chance(1, 12) {literal(rng)} else {rng.range(-20, 20)};
+		match rng.below(36)
+		{
+			0 => (), // undefined
+			1..=15 => {m.insert(n, Bind::Known(v));},
+			_ => {m.insert(n, Bind::Later(v));},
+		}
+	}
+	m
+}
+
+// ---------------------------------------------------------------------------------------------------------
+
+fn run_simplify_batch(cx: &mut Cx, trees: &[T])
+{
+	for chunk in trees.chunks(4096)
+	{
+		let mut lines = Vec::new();
+		let mut spans = Vec::new();
+		for t in chunk
+		{
+			let reqs = simplify_requests(t);
+			spans.push((lines.len(), reqs.len()));
+			lines.extend(reqs);
+		}
+		let replies = cx.model.ask_many(&lines);
+		for (t, (at, n)) in chunk.iter().zip(spans) {check_simplify(cx, t, &replies[at..at + n]);}
+	}
+}
+
+fn replay(cx: &mut Cx, input: &str)
+{
+	let words: Vec<&str> = input.split(' ').filter(|w| !w.is_empty()).collect();
+	let bad = |cx: &mut Cx| cx.report.oracle_fail(input.to_owned(), "unrecognised replay input");
+	match words.first().copied()
+	{
+		Some("S") =>
+		{
+			match T::parse_text(&words[1..].join(" "))
+			{
+				Some(t) => run_simplify_batch(cx, &[t]),
+				None => bad(cx),
+			}
+		},
+		Some(k @ ("E" | "A")) =>
+		{
+			let Some(at) = words.iter().position(|w| *w == "T") else {return bad(cx);};
+			match (parse_bindings(&words[1..at]), T::parse_text(&words[at + 1..].join(" ")))
+			{
+				(Some(b), Some(t)) => if k == "E" {check_orders(cx, &t, &b)} else {check_e2e(cx, &t, &b)},
+				_ => bad(cx),
+			}
+		},
+		_ => bad(cx),
+	}
+}
+
+fn run_c07(cx: &mut Cx)
+{
+	cx.report.rule = "every binary operator at every pair of 40 boundary operands (40x40x10, exhaustive) and negate / not at each; \
+random closed trees over literals {0, +-1, 2^k, 2^k+-1, i64 extremes, small} of depth <= 8. Each tree: real simplify and evaluate vs the model \
+(exact tree, changed flag, error kind), the Lean specification Arith.eval vs the harness oracle, and the oracle (i128 arithmetic per the property \
+text: value, error, or open corner) vs the implementation. non-trivial = the tree was rewritten; distinct = distinct results".to_owned();
+	let b = boundary();
+	let mut trees = Vec::new();
+	for op in 0..10u8
+	{
+		for &x in &b {for &y in &b {trees.push(bin(op, T::C(x), T::C(y)));}}
+	}
+	for &x in &b
+	{
+		trees.push(T::Neg(Box::new(T::C(x))));
+		trees.push(T::Not(Box::new(T::C(x))));
+		trees.push(T::C(x));
+	}
+	cx.report.hit_n("boundary operand pairs (exhaustive)", trees.len() as u64);
+	cx.report.exhaustive = true;
+	let n = if cx.thorough() {2_000_000} else {200_000};
+	for i in 0..n
+	{
+		let depth = 1 + (i % 8) as u32;
+		trees.push(gen_closed(&mut cx.rng, depth));
+	}
+	cx.report.hit_n("random closed trees", n);
+	for t in trees.iter().skip(16000).step_by(20011).take(8) {cx.report.sample(format!("{} -> {}", t.text(), real_simplify(t).simp_text()));}
+	run_simplify_batch(cx, &trees);
+}
+
+fn run_c08(cx: &mut Cx)
+{
+	cx.report.rule = "random expression trees (operator-family chains with constants on both sides, +/-/negate sign tracking, division spines, \
+modulo chains with negative and unit divisors, bitwise chains, shifts, neutral elements, a few strings/addresses/sequences/functions and registers) \
+x random partition of the identifiers into known-now / declared-later / register / undefined x random values. Correspondence: real simplify and \
+evaluate vs the model on the exact resulting tree, changed flag, deferred cause and error kind, at every stage. Oracle: every order of \
+simplify / evaluate(now) / evaluate(all) / substitute-first that yields a number yields the same number, equal to a direct checked evaluation of \
+the expression; no order panics. End-to-end: two .du32 statements of the expression with the .const definitions above / below / below a .global \
+declaration assemble to the same bytes whenever they assemble. non-trivial = evaluation changed the tree".to_owned();
+	// fixed shapes first
+	let fixed: Vec<(T, Binds)> = fixed_cases();
+	for (t, b) in fixed.iter()
+	{
+		check_orders(cx, t, b);
+		check_e2e(cx, t, b);
+	}
+	let n = if cx.thorough() {300_000} else {30_000};
+	for i in 0..n
+	{
+		let depth = 1 + (i % 4) as u32;
+		let exotic = i % 16 == 0;
+		let regs = i % 8 == 1;
+		let mut fork = cx.rng.fork();
+		let t = Gen{rng: &mut fork, exotic, regs}.expr(depth);
+		let binds = gen_binds(&mut cx.rng, &t);
+		check_orders(cx, &t, &binds);
+		if i % 10 == 0 {let _ = rewrite_stats(cx, &t);}
+		if i % 10 == 3 && t.arithmetic() {check_e2e(cx, &t, &binds);}
+		if i % 3000 == 7 {cx.report.sample(format!("{} -> {}", t.text(), real_simplify(&t).simp_text()));}
+	}
+	// plain simplify correspondence on a larger batch (cheap: one request per tree)
+	let n2 = if cx.thorough() {1_000_000} else {100_000};
+	let mut trees = Vec::new();
+	for i in 0..n2
+	{
+		let mut fork = cx.rng.fork();
+		trees.push(Gen{rng: &mut fork, exotic: i % 16 == 0, regs: i % 8 == 1}.expr(1 + (i % 5) as u32));
+	}
+	cx.report.hit_n("simplify-only trees", n2);
+	run_simplify_batch(cx, &trees);
+}
+
+fn fixed_cases() -> Vec<(T, Binds)>
+{
+	let later = |pairs: &[(&str, i64)]| -> Binds {pairs.iter().map(|(n, v)| ((*n).to_owned(), Bind::Later(*v))).collect()};
+	let x = || id("x");
+	let y = || id("y");
+	let c = T::C;
+	vec![
+		// the witnesses of F15, F16, F17
+		(bin(AND, bin(AND, x(), c(3)), c(5)), later(&[("x", 7)])),
+		(bin(OR, bin(OR, x(), c(3)), c(4)), later(&[("x", 8)])),
+		(bin(XOR, bin(XOR, x(), c(3)), c(5)), later(&[("x", 9)])),
+		(bin(MOD, x(), c(1)), later(&[("x", 7)])),
+		(bin(MOD, bin(MOD, x(), c(-5)), c(3)), later(&[("x", 4)])),
+		(bin(MOD, bin(MOD, x(), c(10)), c(11)), later(&[("x", 123)])),
+		// sign tracking
+		(bin(SUB, bin(ADD, x(), c(2)), bin(SUB, y(), c(3))), later(&[("x", 10), ("y", 4)])),
+		(bin(ADD, T::Neg(Box::new(bin(ADD, x(), c(2)))), c(3)), later(&[("x", 10)])),
+		(bin(SUB, c(2), bin(SUB, c(5), x())), later(&[("x", 10)])),
+		(bin(SUB, bin(SUB, c(2), x()), c(2)), later(&[("x", 10)])),
+		// division spines
+		(bin(DIV, bin(DIV, x(), c(3)), c(-2)), later(&[("x", -100)])),
+		(bin(DIV, bin(DIV, c(100), x()), c(7)), later(&[("x", -3)])),
+		(bin(DIV, c(100), bin(DIV, x(), c(7))), later(&[("x", 30)])),
+		(bin(DIV, bin(DIV, bin(DIV, x(), c(3)), y()), c(5)), later(&[("x", 1000), ("y", -7)])),
+		(bin(MUL, bin(MUL, x(), c(3)), bin(MUL, c(5), y())), later(&[("x", 11), ("y", -7)])),
+	]
+}
 
 pub fn run(id: &str, cx: &mut Cx)
 {
-	cx.report.notes.push(format!("component for {id} not implemented"));
-	cx.report.oracle_fail("-", "harness component not implemented");
+	if let Some(input) = cx.replay.clone()
+	{
+		replay(cx, &input);
+		return;
+	}
+	match id
+	{
+		"C07" => run_c07(cx),
+		_ => run_c08(cx),
+	}
 }
